@@ -246,6 +246,33 @@ func wgRun(t *testing.T, sp *wgSpec) {
 		rec.Bulk(n, n, map[string]int64{"nested-universe:models": n, "nested-universe:ordered-builds": orders, "nested-universe:accepted": accepted})
 		rec.Note("nested-operator universe (twin and cousin operators of one kind): %d of %d models (twins: every %d., cousins: every %d.), %d ordered builds", n, total, twinStride, stride, orders)
 	}
+	// third bounded family: special name pairs on interlocking tuple cycles, long chains, rings (wgNamePairModels)
+	if ev.Shard() == 0 {
+		var n, orders int64
+		for i, m := range wgNamePairModels() {
+			in := wgInput{Model: m}
+			if g0 := refBuildOnly(m); g0.Err == "" {
+				ids := wgNonTerminal(g0)
+				if len(ids) <= 4 {
+					in.Orders = permutations(ids, 100)
+				} else {
+					rev := append([]string{}, ids...)
+					for a, b := 0, len(rev)-1; a < b; a, b = a+1, b-1 {
+						rev[a], rev[b] = rev[b], rev[a]
+					}
+					mid := append(append([]string{}, ids[len(ids)/2:]...), ids[:len(ids)/2]...)
+					in.Orders = [][]string{ids, rev, mid}
+				}
+			}
+			res := wgEvaluate(in, wgOpts{RealBuilds: 6})
+			n++
+			orders += int64(res.Orders)
+			if msg := wgReport(rec, sp, in, res); msg != "" {
+				t.Fatalf("name-pair / chain / ring family model #%d: %s\n%.3000s", i, msg, m.String())
+			}
+		}
+		rec.Bulk(n, n, map[string]int64{"name-pair-family:models": n, "name-pair-family:ordered-builds": orders})
+	}
 	rapid.Check(t, func(rt *rapid.T) {
 		noiseCall(rt) // one case in three is preceded by an unrelated, mostly failing call (see noise_test.go)
 		opts := sp.opts
